@@ -70,11 +70,17 @@ func Begin(cfg Config) *Run {
 		overrides: map[string]int64{},
 	}
 	cur.Store(r)
+	// the patched runtime (see vcheck's runtimeOverlay) makes map order and select order a function
+	// of the run seed from here on
+	runtime.SimSetSeed(cfg.Seed, true)
 	return r
 }
 
 // End finishes the active run.
-func End() { cur.Store(nil) }
+func End() {
+	runtime.SimSetSeed(0, false)
+	cur.Store(nil)
+}
 
 // Cur returns the active run or nil.
 func Cur() *Run { return cur.Load() }
